@@ -636,8 +636,10 @@ static int default_helper_state(int32_t *futex, unsigned long *qlen)
 		}
 	return 0;
 }
+static struct ho_cb *ho_extra[8];
 static int run_handover(long rounds)
 {
+	int with_barrier = (int) vp_arg_long("ho-barrier", 1);
 	struct vp_rng r;
 	uint64_t ev = 0, nontriv = 0, asleep_at_free = 0;
 	vp_rng_init(&r, vp_opt.seed, 0x4a9d, 0);
@@ -661,6 +663,18 @@ static int run_handover(long rounds)
 		vp_rcu_offline();
 		for (int k = 0; k < 4000 && !VP_LOAD(c->started); k++)
 			usleep(100);
+		int nextra = 0;
+		if (!with_barrier) {
+			/* callbacks queued behind the running batch: they are still on H's queue when H stops */
+			vp_rcu_online();
+			nextra = 1 + (int) vp_rand_n(&r, 5);
+			for (int k = 0; k < nextra; k++) {
+				ho_extra[k] = calloc(1, sizeof(struct ho_cb));
+				ho_extra[k]->ms = 0;
+				call_rcu(&ho_extra[k]->head, ho_slow_cb);
+			}
+			vp_rcu_offline();
+		}
 		/* wait until the default helper sleeps with an empty queue */
 		int32_t fx = 0; unsigned long ql = 1;
 		for (int k = 0; k < 3000; k++) {
@@ -669,7 +683,8 @@ static int run_handover(long rounds)
 			usleep(200);
 		}
 		pthread_t bt;
-		pthread_create(&bt, NULL, ho_barrier_main, NULL);
+		if (with_barrier)
+			pthread_create(&bt, NULL, ho_barrier_main, NULL);
 		/* long enough for the default helper to run its own marker and go back to sleep */
 		usleep(25000 + vp_rand_n(&r, 20000));
 		VP_STORE(ho_def_asleep_at_handover, 0);
@@ -681,7 +696,17 @@ static int run_handover(long rounds)
 		/* nothing else happens from here on */
 		uint64_t t0 = vp_now_ns();
 		int stuck = 0;
-		while (!VP_LOAD(ho_bar_done)) {
+		for (;;) {
+			if (with_barrier) {
+				if (VP_LOAD(ho_bar_done))
+					break;
+			} else {
+				int all = VP_LOAD(c->done);
+				for (int k = 0; k < nextra; k++)
+					all = all && VP_LOAD(ho_extra[k]->done);
+				if (all)
+					break;
+			}
 			usleep(2000);
 			uint64_t el = vp_now_ns() - t0;
 			if (el > 3000000000ULL && ((el / 1000000) % 1000) < 3) {
@@ -694,7 +719,15 @@ static int run_handover(long rounds)
 			if (el > 120000000000ULL)
 				break;
 		}
-		if (stuck) {
+		if (stuck && !with_barrier) {
+			vp_violation("callback-never-invoked:handed-over-callbacks-on-sleeping-default-helper",
+				     "cfg=%s handover round %ld: callbacks left on a destroyed helper were handed over to the default helper, which sleeps (futex=-1) with qlen=%lu; nothing has been invoked for %llu ms and there is no other call_rcu traffic",
+				     cfgname, i, ql, (unsigned long long) ((vp_now_ns() - t0) / 1000000));
+			struct ho_cb *kick = calloc(1, sizeof(*kick));
+			vp_rcu_online();
+			call_rcu(&kick->head, ho_slow_cb);
+			vp_rcu_offline();
+		} else if (stuck) {
 			vp_violation("hang:rcu_barrier:handed-over-callbacks-on-sleeping-default-helper",
 				     "cfg=%s handover round %ld: rcu_barrier() has not returned %llu ms after call_rcu_data_free() of a helper that still held the barrier's marker; default helper futex=-1 (asleep) with qlen=%lu and no other call_rcu traffic",
 				     cfgname, i, (unsigned long long) ((vp_now_ns() - t0) / 1000000), ql);
@@ -704,9 +737,10 @@ static int run_handover(long rounds)
 			vp_rcu_online();
 			call_rcu(&kick->head, ho_slow_cb);
 			vp_rcu_offline();
-		} else if (!VP_LOAD(ho_bar_done))
+		} else if (with_barrier && !VP_LOAD(ho_bar_done))
 			vp_inconclusive("handover: rcu_barrier() did not return within 120 s but the stuck state was not confirmed");
-		pthread_join(bt, NULL);
+		if (with_barrier)
+			pthread_join(bt, NULL);
 		vp_rcu_online();
 		int def_asleep = VP_LOAD(ho_def_asleep_at_handover);
 		ev++;
